@@ -10,7 +10,8 @@ EXPLANATION = (
     "GGMPseudorandomGenerator::setup are not contained in the clear in the returned key - they enter it only as "
     "inputs of the Strobe PRG; (R2, must-pass-through) every Ok of GGMPuncturableKey::puncture is dominated by the "
     "removal (Vec::remove) of the element of `prefixes` located by the lookup on the covering prefix - a "
-    "black-list-only implementation that keeps ancestor seeds fails this for every history; (R3) in GGM::puncture "
+    "black-list-only implementation that keeps ancestor seeds fails this for every history, and every Ok of "
+    "Server::puncture is the Ok of that key-level puncture applied to the given tag; (R3) in GGM::puncture "
     "the covering seed reaches the elements added to `prefixes` only through the output of the bitwise PRG descent "
     "(bit_eval, declared one-way under the stated assumption that it runs over >= 1 bit there); (R4, feature "
     "key-sync) the exported state borrows exactly the live oprf key, public key and puncturable key, import "
@@ -52,6 +53,27 @@ def covering_removed(ctx, rule, cfg="A"):
             sample=S(idx, 5))
 
 
+def server_puncture_passes_through(ctx, rule):
+    """Server::puncture may report success only as the success of the puncturable key's own puncture of exactly the
+    given tag: a success produced anywhere else leaves the covering node in the key (shared with C14)"""
+    root = "ppoprf::ppoprf::Server::puncture"
+    eng, ret, st, fr = ctx.root(root)
+    at = ctx.fn(root).loc
+    pc = [e for e in Q.calls(eng, "PPRF>::puncture") if e["frame"] == fr.key]
+    okv = Q.variant(ret, 0)
+    ok = len(pc) == 1 and okv is not None
+    det = "%d key-level puncture call(s)" % len(pc)
+    if ok:
+        inp = pc[0]["argv"][1]
+        tag_ok = Q.params(Q.leaves(inp)) == {"md"}
+        pre = fr.key + "/%s@" % pc[0]["block"]
+        outside = sorted(str(o) for o in okv[4] if not str(o[0]).startswith(pre))
+        ok = tag_ok and not outside and bool(okv[4])
+        det = "punctured input depends on %s; success produced outside the key-level puncture at %s" % (sorted(Q.params(Q.leaves(inp))), outside)
+    ctx.add(rule, root + "#success-only-from-key-puncture", ok,
+            "every Ok of Server::puncture must be the Ok of the puncturable key's puncture of the given tag (%s)" % det, at, sample=det)
+
+
 def run(ctx):
     # ---- R1 root secret not stored --------------------------------------------------------------------------
     root = "ppoprf::ggm::GGMPuncturableKey::new"
@@ -78,7 +100,8 @@ def run(ctx):
 
     # ---- R2 covering node removed ----------------------------------------------------------------------------
     covering_removed(ctx, "C11.R2")
-    ctx.floor("C11.R2", 2)
+    server_puncture_passes_through(ctx, "C11.R2")
+    ctx.floor("C11.R2", 3)
 
     # ---- R3 seed re-entry only through the PRG ----------------------------------------------------------------
     root = c10.PUNC
